@@ -218,10 +218,15 @@ func genMS(t *rapid.T) MS {
 }
 
 func genSets(t *rapid.T) []MSet {
-	ns := rapid.IntRange(0, 2).Draw(t, "nsets")
+	ns := rapid.IntRange(0, 3).Draw(t, "nsets")
 	var out []MSet
 	for i := 0; i < ns; i++ {
 		nm := rapid.IntRange(1, 3).Draw(t, "nmatchers")
+		if rapid.IntRange(0, 7).Draw(t, "emptySet") == 0 {
+			// a matcher set without matchers matches every connection, also as one of several OR'ed sets
+			out = append(out, MSet{})
+			continue
+		}
 		s := MSet{Not: rapid.IntRange(0, 3).Draw(t, "not") == 0}
 		for j := 0; j < nm; j++ {
 			s.Ms = append(s.Ms, genMS(t))
